@@ -88,6 +88,7 @@ impl JoinNumericPlugin {
         let mut i = -1;
         while i < path.len() as i32 - 1 {
             i += 1;
+            verif_point!("join_numeric:node");
             let node = &path[i as usize];
             let ctypes = text.cat_of_range(node.char_range());
             let s = node.word_info().normalized_form();
